@@ -184,6 +184,29 @@ static void ev_pget(StringReader& r, const RAcc& a, uint64_t off) {
   j.str("out", out).raw("ret", jb(digits_of(v, a.rw))).raw("where", d8(r.where()));
   tr.emit(j);
 }
+// the template forms with an explicit span size (a record header followed by `size - sizeof(T)` further bytes)
+static void ev_gspan(StringReader& r, int which, bool positional, uint64_t off, uint64_t size, bool adv) {
+  uint64_t v = 0;
+  int w = which == 0 ? 1 : which == 1 ? 2 : which == 2 ? 4 : 8;
+  const char* ord = which == 0 ? "b" : which == 1 ? "l" : which == 2 ? "l" : "b";
+  string out = guarded([&] {
+    if (positional) {
+      if (which == 0) v = r.pget<uint8_t>(off, size);
+      else if (which == 1) v = r.pget<le_uint16_t>(off, size);
+      else if (which == 2) v = r.pget<le_uint32_t>(off, size);
+      else v = r.pget<be_uint64_t>(off, size);
+    } else {
+      if (which == 0) v = r.get<uint8_t>(adv, size);
+      else if (which == 1) v = r.get<le_uint16_t>(adv, size);
+      else if (which == 2) v = r.get<le_uint32_t>(adv, size);
+      else v = r.get<be_uint64_t>(adv, size);
+    }
+  });
+  vt::J j;
+  j.str("e", "gspan").str("ord", ord).num("w", w).num("pos", positional).raw("off", d8(off)).raw("size", d8(size)).num("adv", adv);
+  j.str("out", out).raw("ret", jb(digits_of(v, w))).raw("where", d8(r.where()));
+  tr.emit(j);
+}
 static void ev_read(StringReader& r, const string& kind, uint64_t off, uint64_t size, bool adv) {
   string ret;
   string out;
@@ -648,7 +671,15 @@ static void cursor_history(vt::Rng& r) {
   size_t cur_n = n;
   int nops = (int)r.range(3, 40);
   for (int i = 0; i < nops; i++) {
-    switch (r.below(14)) {
+    switch (r.below(15)) {
+      case 14: {
+        int which = (int)r.below(4);
+        uint64_t w = which == 0 ? 1 : which == 1 ? 2 : which == 2 ? 4 : 8, size = sz();
+        if (size < w) size = w;
+        bool positional = r.chance(40);
+        ev_gspan(rd, which, positional, positional ? (r.chance(85) ? r.below(cur_n + 2) : B[r.below(B.size())]) : 0, size, r.chance(80));
+        break;
+      }
       case 0: ev_go(rd, r.chance(85) ? r.below(cur_n + 2) : B[r.below(B.size())]); break;
       case 1: ev_skip(rd, sz()); break;
       case 2: ev_get(rd, R[r.below(R.size())], r.chance(80)); break;
